@@ -171,11 +171,12 @@ def copy_repo(d):
 
 
 def run_one(job):
-    f, target, kind, ln, ctx, props, slow = job
+    f, target, kind, ln, ctx, props, slow = job[:7]
     d = tempfile.mkdtemp(prefix="vp-am-")
     try:
         copy_repo(d)
-        src = open(os.path.join("/repo", f)).read()
+        # the source as it was when the mutation points were enumerated (the repository may be edited while a sweep runs)
+        src = job[7] if len(job) > 7 else open(os.path.join("/repo", f)).read()
         try:
             new = apply_mutant(src, target, kind)
             compile(new, f, "exec")
@@ -243,14 +244,16 @@ def main():
         src, points = gen_mutants(os.path.join("/repo", f))
         props = fp.get(f, [])
         for (idx, kind, ln, ctx) in points:
-            jobs.append((f, idx, kind, ln, ctx, props, slow))
+            jobs.append((f, idx, kind, ln, ctx, props, slow, src))
     rng = random.Random(seed)
     if "--retest" not in args:
         rng.shuffle(jobs)
     jobs = jobs[:mx]
     print("%d mutation points sampled (of all in %d files)" % (len(jobs), len(files)), flush=True)
     with ThreadPoolExecutor(max_workers=4) as ex, open(out, "a") as fo:
-        for r in ex.map(run_one, jobs):
+        for r, job in zip(ex.map(run_one, jobs), jobs):
+            if len(job) > 7:
+                r["text"] = job[7].splitlines()[r["line"] - 1].strip()[:160] if r.get("line") else ""
             fo.write(json.dumps(r) + "\n")
             fo.flush()
             print("%-9s %s:%s %s [%s] %s" % (r["verdict"], r["file"], r["line"], r["kind"], r["ctx"], r.get("by") or r.get("tried") or ""), flush=True)
